@@ -97,7 +97,7 @@ def run(tier, seed):
         mc = core.tlc("MC_Wire", wd=wd, workers=1, timeout=600)
         if mc.rc != 0:
             raise core.ToolError("MC_Wire (grammar self-check) failed:\n" + core.tail(mc.out))
-        nconn = 150 if tier == "quick" else 12000
+        nconn = 150 if tier == "quick" else 40000
         _, plans = conn.gen_plans(wd, nconn, [0], seed)
         plans += sweep_plans(plans[0], rng, tier)
         trace, blobs, decoded, dec = conn.run_plans(wd, plans, "c04", v=v, key="panic:abort")
